@@ -83,6 +83,9 @@ type HistoryCase struct {
 	Before *ProgramJSON `json:"before,omitempty"`
 	Target *ProgramJSON `json:"target,omitempty"`
 	Edit   string       `json:"edit,omitempty"`
+	// environment_dependence: Index compiled alone, in a fresh process, with these variables set
+	// (and another working directory) against the same in the default environment
+	Env map[string]string `json:"env,omitempty"`
 }
 
 func replayHistory(rp *Replay) int {
@@ -113,20 +116,49 @@ func replayHistory(rp *Replay) int {
 		return 0
 	}
 	// fresh digest from the current tree: a child process that compiles only the target
-	cmd := exec.Command(os.Args[0], "-mode", "refdigest", "-seed", fmt.Sprint(rp.MasterSeed), "-gen", hc.GenCfg, "-indices", fmt.Sprint(hc.Index))
-	outb, err := cmd.Output()
+	childDigest := func(env map[string]string) (string, error) {
+		cmd := exec.Command(os.Args[0], "-mode", "refdigest", "-seed", fmt.Sprint(rp.MasterSeed), "-gen", hc.GenCfg, "-indices", fmt.Sprint(hc.Index))
+		if env != nil {
+			cmd.Env = os.Environ()
+			for k, v := range env {
+				cmd.Env = append(cmd.Env, k+"="+v)
+			}
+			if dir, err := os.MkdirTemp("", "c14env"); err == nil {
+				defer os.RemoveAll(dir)
+				cmd.Dir = dir
+				cmd.Env = append(cmd.Env, "TMPDIR="+dir)
+			}
+		}
+		outb, err := cmd.Output()
+		if err != nil {
+			return "", err
+		}
+		var child struct {
+			RefDigests map[string]string `json:"ref_digests"`
+		}
+		if err := json.Unmarshal(outb, &child); err != nil {
+			return "", err
+		}
+		return child.RefDigests[fmt.Sprint(hc.Index)], nil
+	}
+	fresh, err := childDigest(nil)
 	if err != nil {
 		fmt.Println("REPLAY: child process failed:", err)
 		return 2
 	}
-	var child struct {
-		RefDigests map[string]string `json:"ref_digests"`
+	if hc.Env != nil {
+		other, err := childDigest(hc.Env)
+		if err != nil {
+			fmt.Println("REPLAY: child process failed:", err)
+			return 2
+		}
+		if other != fresh {
+			fmt.Printf("REPLAY: violation class=environment_dependence: program %d, compiled alone in a fresh process, gives %s in the default environment and %s with %v\n", hc.Index, fresh, other, hc.Env)
+			return 1
+		}
+		fmt.Println("REPLAY: no violation (same outputs in both environments)")
+		return 0
 	}
-	if err := json.Unmarshal(outb, &child); err != nil {
-		fmt.Println("REPLAY: child output unreadable")
-		return 2
-	}
-	fresh := child.RefDigests[fmt.Sprint(hc.Index)]
 	var last string
 	for _, idx := range hc.Order {
 		p := programFor(rp.MasterSeed, idx, hc.GenCfg)
@@ -593,7 +625,7 @@ func runReplay(file string) int {
 		fmt.Fprintln(os.Stderr, "replay:", err)
 		return 2
 	}
-	if rp.Violation.Class == "process_history_dependence" {
+	if rp.Violation.Class == "process_history_dependence" || rp.Violation.Class == "environment_dependence" {
 		return replayHistory(&rp)
 	}
 	p, err := rp.Program.ToProgram()
